@@ -126,10 +126,16 @@ class Model:
                 self.known[a] = YES
                 self.first_intro.pop(a, None)
             else:
-                # known already; whether the introducer record is refreshed depends on the liveness of the old one
+                # known already: the record of who introduced it (and for which service) stays while that introducer is
+                # a verified peer, and passes to the new introducer once the old one is gone
                 fi = self.first_intro.get(a)
                 if fi is not None and fi != (p, s, new_style):
-                    self.first_intro.pop(a, None)
+                    if fi[0] in self.members:
+                        pass
+                    elif fi[0] in self.maybe:
+                        self.first_intro.pop(a, None)
+                    else:
+                        self.first_intro[a] = (p, s, new_style)
         self.add(p, addrs)
 
     def advertise(self, p: int, services: list[int]) -> None:
